@@ -1,5 +1,6 @@
-/- driver family `forest`: C11 histories of tree-editing operations -/
-import MagpyVerif.Model.Forest
+/- driver family `forest`: C11 histories of tree-editing operations, C18 `copy` steps inside such
+histories, and the label iteration of `copy()` (`label` / `copylabel`, stateless) -/
+import MagpyVerif.Model.Copy
 import Driver.Parse
 
 namespace Driver.ForestFam
@@ -18,12 +19,24 @@ def ids : P (List Nat) := do let n ← nat; many n nat
 def dump (s : Forest) : String :=
   let one (i : Nat) : String :=
     let p := match s.parent i with | none => "-" | some p => toString p
-    s!"{i}:{p} C{s.children i} S{s.srcs i} E{s.sens i} L{s.colls i}"
+    let k := match s.kind i with | .src => "s" | .sens => "e" | .coll => "c"
+    s!"{i}{k}:{p} C{s.children i} S{s.srcs i} E{s.sens i} L{s.colls i}"
   " | ".intercalate ((List.range s.n).map one)
 
 inductive Cmd where
   | init (ks : List Kind)
-  | op (o : FOp)
+  | op (o : Forest.COp)
+  | label (name : List Char)
+  | copylabel (cls : List Char) (touched : Bool) (label : Option (List Char))
+
+/-- a string as `<length> <code point>*` (any character, also none at all, survives the token protocol) -/
+def chars : P (List Char) := do
+  let n ← nat
+  let cps ← many n nat
+  pure (cps.map Char.ofNat)
+
+def showChars (cs : List Char) : String :=
+  " ".intercalate (toString cs.length :: cs.map (fun c => toString c.toNat))
 
 partial def kinds : P (List Kind) := do
   match (← get) with
@@ -33,15 +46,20 @@ partial def kinds : P (List Kind) := do
 def cmd : P Cmd := do
   match (← tok) with
   | "init" => pure (.init (← kinds))
-  | "add" => do let c ← nat; let ov ← bool; let os ← ids; pure (.op (.add c os ov))
-  | "remove" => do let c ← nat; let r ← bool; let e ← bool; let os ← ids; pure (.op (.remove c os r e))
+  | "add" => do let c ← nat; let ov ← bool; let os ← ids; pure (.op (.base (.add c os ov)))
+  | "remove" => do let c ← nat; let r ← bool; let e ← bool; let os ← ids; pure (.op (.base (.remove c os r e)))
   | "parent" => do
       let o ← nat; let p ← int
-      pure (.op (.setParent o (if p < 0 then none else some p.toNat)))
-  | "children" => do let c ← nat; let os ← ids; pure (.op (.setChildren c os))
-  | "typed" => do let c ← nat; let k ← kind; let os ← ids; pure (.op (.setTyped c k os))
-  | "plus" => do let a ← nat; let b ← nat; pure (.op (.plus a b))
-  | "bad" => pure (.op .rejected)
+      pure (.op (.base (.setParent o (if p < 0 then none else some p.toNat))))
+  | "children" => do let c ← nat; let os ← ids; pure (.op (.base (.setChildren c os)))
+  | "typed" => do let c ← nat; let k ← kind; let os ← ids; pure (.op (.base (.setTyped c k os)))
+  | "plus" => do let a ← nat; let b ← nat; pure (.op (.base (.plus a b)))
+  | "bad" => pure (.op (.base .rejected))
+  | "copy" => do let o ← nat; pure (.op (.copy o))
+  | "label" => do pure (.label (← chars))
+  | "copylabel" => do
+      let cls ← chars; let touched ← bool; let has ← bool
+      if has then pure (.copylabel cls touched (some (← chars))) else pure (.copylabel cls touched none)
   | t => throw s!"unknown forest command {t}"
 
 def step (st : Option Forest) (line : String) : Option Forest × String :=
@@ -50,8 +68,13 @@ def step (st : Option Forest) (line : String) : Option Forest × String :=
   | .ok (.init ks) => let s := Forest.init ks; (some s, s!"ok {dump s}")
   | .ok (.op o) => match st with
       | some s =>
-        let r := s.step o
+        let r := s.stepC o
         (some r.1, s!"{if r.2 then "ok" else "err"} {dump r.1}")
       | none => (st, "no-forest")
+  | .ok (.label name) => (st, s!"ok {showChars (addIterationSuffix name)}")
+  | .ok (.copylabel cls touched label) =>
+      match copyLabel cls touched label with
+      | none => (st, "ok none")
+      | some l => (st, s!"ok {showChars l}")
 
 end Driver.ForestFam
